@@ -176,18 +176,23 @@ def body_cli(case, rec):
         inp.write_text(remap.input_text(case, "agp"))
         mp = d / "map.agp"
         mp.write_text(remap.map_agp_text(case))
-        out = d / "out" / "x.1.agp"
+        # a third of the cases write TPF (gap types that TPF cannot carry unchanged are left to AGP)
+        plain_types = all(r[2] in ("scaffold", "contig", "centromere") for _n, rows in case["input"] for r in rows if r[0] == "G")
+        ext = "tpf" if plain_types and len(remap.map_agp_text(case)) % 3 == 0 else "agp"
+        classes.add("output_" + ext)
+        out = d / "out" / f"x.1.{ext}"
         out.parent.mkdir()
         res = remap.run_cli_inprocess(["-a", inp, "-p", mp, "-o", out, "-c", case.get("prefix", "SUPER_")])
         if res.exit_code != 0:
             rec.note(case, False, classes | {"error"})
             return
         outs = []
+        reader = ref.read_agp if ext == "agp" else ref.read_tpf
         for f in sorted(out.parent.iterdir()):
-            if f.name.endswith(".agp"):
+            if f.name.endswith("." + ext):
                 if "all_haplotigs" in f.name:
                     classes.add("all_haplotigs_file")
-                outs.extend([n, [r[:5] if r[0] == "F" else r for r in rows]] for n, rows in ref.read_agp(f.read_text())[1])
+                outs.extend([n, [r[:5] if r[0] == "F" else r for r in rows]] for n, rows in reader(f.read_text())[1])
         try:
             oracle(case, outs, True, classes)
         finally:
